@@ -103,9 +103,22 @@ def gen_case(rng):
                 weights=weights)
 
 
+_turn = [0]
+
+
 def impl_eval(c):
-    op = make_opacity(c['Tg'], c['Pg'], c['tab'], c['wn'], c['mode'], c['weights'])
     wngrid = None if c['sub'] is None else c['wn'][c['sub'][0]:c['sub'][1]]
+    _turn[0] += 1
+    if _turn[0] % 3 == 0:
+        # a live object whose interpolation mode is switched (the public setter): built in the OTHER mode, asked for the
+        # same temperature, pressure and grid, switched, asked again -- the answer is that of the mode now set
+        other = 'exp' if c['mode'] == 'linear' else 'linear'
+        op = make_opacity(c['Tg'], c['Pg'], c['tab'], c['wn'], other, c['weights'])
+        with np.errstate(all='ignore'):
+            op.opacity(c['T'], c['P'], wngrid)
+            op.set_interpolation_mode(c['mode'])
+            return np.array(op.opacity(c['T'], c['P'], wngrid), float)
+    op = make_opacity(c['Tg'], c['Pg'], c['tab'], c['wn'], c['mode'], c['weights'])
     with np.errstate(all='ignore'):
         out = np.array(op.opacity(c['T'], c['P'], wngrid), float)
     return out
